@@ -248,7 +248,9 @@ def clause_hash_check(prog, rep):
                 adt_of[bb0] = last_seg(s0.get("adt"))
         for differ in (0, 1):
             def hook(cal, args, differ=differ):
-                if cal.get("name") in ("ne", "eq") and last_seg(cal.get("trait")) == "PartialEq" and "u8; 32" in " ".join(cal.get("gen") or []):
+                # the comparison of the computed digest with the announced hash, whatever the operand types ([u8; 32], &[u8], ...)
+                if cal.get("name") in ("ne", "eq") and last_seg(cal.get("trait")) == "PartialEq" and len(args) == 2 and (
+                        "u8; 32" in " ".join(cal.get("gen") or []) or ("digest" in repr(args) and "original_hash" in repr(args))):
                     return ("int", differ if cal["name"] == "ne" else 1 - differ)
                 if any("tracing" in e for e in (cal.get("expn") or [])) and cal.get("name") in ("le", "lt"):
                     return ("int", 0)
